@@ -83,6 +83,7 @@ pub fn run(m: &Model, ctx: &mut Ctx) {
 C10.key: the key of the definitions map must identify the module as well as the name (a name-only key loses same-named definitions of different modules without a trace). \
 C10.pair: in Validator::link every removal from the definitions map re-inserts the entry on every accepting branch, and each refutable pattern is implied by the guard fn that dominates it (guard tables extracted per ToplevelDefinition variant). \
 C10.local: the per-definition folds of both generate_module impls and of validate() turn Err into one warning and keep going (evaluated for Ok/Err). \
+C10.class: an assignment `v ID ::= { .. }` whose governor is spelled like a class reference is read by the lexer as an information object; objects are a silent category, so the linker arm that resolves an object's class is evaluated on an object whose class name is the name of a *type* and must leave a warning (or the generators must report an object whose class is still only a name). \
 C10.discard: no Result of the linker/generator is discarded with `let _ =` / `.ok();` (audited exceptions). \
 Thorough tier: compile_fail witness that CompilerError exposes no bindings. \
 Not decided: that a warning never alters *dependent* definitions' bindings in ways beyond the dependency.".into();
@@ -97,6 +98,7 @@ Not decided: that a warning never alters *dependent* definitions' bindings in wa
     header(m, ctx);
     local(m, ctx, &consts);
     discard(m, ctx);
+    misread_value(m, ctx, &consts);
 }
 
 fn empties(m: &Model, ctx: &mut Ctx, consts: &dyn Fn(&str) -> Option<Val>) {
@@ -698,6 +700,109 @@ fn local(m: &Model, ctx: &mut Ctx, consts: &dyn Fn(&str) -> Option<Val>) {
         if pushes == 0 || ctxs < pushes {
             ctx.violate("C10.local", "link-warnings-name-the-definition", &f.file, f.line, &format!("link() pushes {} warnings but contextualizes {}: every linker warning must carry the name of the definition it is about", pushes, ctxs));
         }
+    }
+}
+
+/// `abstractSyntax ID ::= {ds 9}` with `ID ::= OBJECT IDENTIFIER`: the lexer's first alternative reads it as an information
+/// object of class ID. Information objects produce no output, so the value assignment would vanish without a trace unless
+/// somebody notices that ID is a type: either the linker arm resolving the object's class leaves a warning, or a generator
+/// reports an object whose class is still a bare name.
+fn misread_value(m: &Model, ctx: &mut Ctx, consts: &dyn Fn(&str) -> Option<Val>) {
+    let rule = "C10.class";
+    let named = |n: &str, fields: Vec<(&str, Val)>| Val::Ctor(n.to_string(), vec![], fields.into_iter().map(|(k, v)| (k.to_string(), v)).collect::<BTreeMap<_, _>>());
+    let object = |class: Val| named("ToplevelInformationDefinition", vec![
+        ("name", Val::Str("abstractSyntax".into())),
+        ("class", class),
+        ("value", Val::Ctor("Object".into(), vec![Val::Opaque("fields".into())], BTreeMap::new())),
+        ("parameterization", Val::none()),
+    ]);
+    let by_name = |n: &str| Val::Ctor("ByName".into(), vec![Val::Str(n.into())], BTreeMap::new());
+    let ty_tld = Val::Ctor("Type".into(), vec![named("ToplevelTypeDefinition", vec![("name", Val::Str("ID".into())), ("ty", Val::Ctor("ObjectIdentifier".into(), vec![Val::Opaque("oid".into())], BTreeMap::new()))])], BTreeMap::new());
+    let class_tld = Val::Ctor("Class".into(), vec![named("ToplevelClassDefinition", vec![("name", Val::Str("CLS".into())), ("definition", Val::Sym("<class CLS>".into()))])], BTreeMap::new());
+    ctx.oblige(rule, "misread-value:reported", true);
+    ctx.oblige(rule, "real-object:quiet", true);
+    // (a) the linker arm
+    let Some(f) = anchor_fn(m, ctx, rule, Some("Validator"), "link", None) else { return };
+    let arm = model::matches_in(&f.block).into_iter().find_map(|mt| {
+        if !tok(&mt.expr).contains("remove") {
+            return None;
+        }
+        mt.arms.iter().position(|a| tok(&a.pat).contains("ToplevelDefinition::Object") && tok(&a.body).contains("resolve_class_reference")).map(|i| (mt.clone(), i))
+    });
+    let hook = |_: &Evaluator, name: &str, a: &[Val]| -> Option<Result<Val, String>> {
+        match name {
+            "LinkerError::new" | "GrammarError::new" | "CompilerError::from" => Some(Ok(Val::Sym(format!("<error {}>", a.iter().map(|v| v.show()).collect::<Vec<_>>().join(" ").chars().take(80).collect::<String>())))),
+            _ => None,
+        }
+    };
+    let inl = inline_all(m, &["ToplevelInformationDefinition"]);
+    let ev = Evaluator { consts, call_hook: &hook, inline: Some(&inl) };
+    let mut linker_reports = None;
+    let mut linker_quiet = None;
+    if let Some((mt, i)) = &arm {
+        for (class, want_warning) in [("ID", true), ("CLS", false), ("NOT-SUPPLIED", false)] {
+            let mut tlds = crate::eval::new_map();
+            tlds = crate::eval::map_insert(tlds, Val::Str("ID".into()), ty_tld.clone());
+            tlds = crate::eval::map_insert(tlds, Val::Str("CLS".into()), class_tld.clone());
+            let mut env = Env::new();
+            env.insert("self".into(), named("Validator", vec![("tlds", tlds)]));
+            env.insert("warnings".into(), Val::List(vec![]));
+            env.insert("key".into(), Val::Str("abstractSyntax".into()));
+            let scrut = Val::some(Val::Tuple(vec![Val::Str("abstractSyntax".into()), Val::Ctor("Object".into(), vec![object(by_name(class))], BTreeMap::new())]));
+            let r = ev.select_arm(mt, &scrut, &env).and_then(|(j, mut e2)| {
+                if j != *i {
+                    return Err(format!("the object is handled by arm {} instead of the class-resolving arm", j));
+                }
+                ev.eval(&mt.arms[j].body, &mut e2)?;
+                match e2.get("warnings") {
+                    Some(Val::List(l)) => Ok(l.len()),
+                    o => Err(format!("warnings became {}", o.map(|v| v.show()).unwrap_or_default())),
+                }
+            });
+            match r {
+                Ok(n) if want_warning => linker_reports = Some(n > 0),
+                Ok(n) => {
+                    if n > 0 {
+                        linker_quiet = Some(class);
+                    }
+                }
+                Err(e) => {
+                    ctx.fail_closed(rule, &format!("Validator::link, object of class {}: {}", class, e));
+                    return;
+                }
+            }
+        }
+    }
+    if let Some(class) = linker_quiet {
+        ctx.violate(rule, "real-object:warned", &f.file, f.line, &format!("an information object whose class {} is warned about although nothing is lost: objects are a documented silent category and a class that is not among the supplied modules is not an error of this definition", if class == "CLS" { "is a defined class" } else { "is not supplied" }));
+    }
+    if linker_reports == Some(true) {
+        return;
+    }
+    // (b) a generator that refuses an object whose class is still a name
+    let gen_hook = |_: &Evaluator, name: &str, _a: &[Val]| -> Option<Result<Val, String>> {
+        if name.starts_with(".generate_") {
+            return Some(Ok(Val::Ctor("Ok".into(), vec![Val::Sym(format!("<{}>", &name[1..]))], BTreeMap::new())));
+        }
+        match name {
+            "TokenStream::new" | "String::new" => Some(Ok(Val::Sym(String::new()))),
+            _ => None,
+        }
+    };
+    let ev2 = Evaluator { consts, call_hook: &gen_hook, inline: None };
+    let mut generator_reports = false;
+    if let Some(g) = m.fns.iter().find(|f| f.name == "generate_tld" && f.self_ty.as_deref() == Some("Rasn")) {
+        let param = g.sig.inputs.iter().filter_map(|a| match a { syn::FnArg::Typed(t) => Some(tok(&t.pat)), _ => None }).next().unwrap_or("tld".into());
+        let mut env = Env::new();
+        env.insert("self".into(), Val::ctor("Rasn"));
+        env.insert(param, Val::Ctor("Object".into(), vec![object(by_name("ID"))], BTreeMap::new()));
+        if let Ok(Val::Ctor(e, _, _)) = ev2.eval_fn_body(&g.block, &mut env) {
+            generator_reports = e == "Err";
+        }
+    }
+    if !generator_reports {
+        ctx.violate(rule, "misread-value:silent", &f.file, arm.as_ref().map(|(mt, i)| span_line(&mt.arms[*i])).unwrap_or(f.line),
+            "`abstractSyntax ID ::= {ds 9}` (ID ::= OBJECT IDENTIFIER) is read as an information object of class ID; the linker finds no class of that name, leaves the object as it is, and the generators emit nothing for objects: the value assignment disappears without a warning, and `id-as ID ::= abstractSyntax` then names a constant that does not exist");
     }
 }
 
